@@ -320,6 +320,8 @@ def run_shard(spec) -> Result:
                             if k % spec["parts"] != spec["part"]:
                                 continue
                             scen = scenario(main, body, imr0, {"enabled": True, "mti": mti, "sti": sti})
+                            if k % 3 == 0:
+                                scen["fast_mode"] = True
                             jobs.append((scen, build_script(70, {})))
         res.count("phase_sweep_runs", len(jobs))
     elif spec["kind"] == "stackedge":
@@ -367,6 +369,8 @@ def run_shard(spec) -> Result:
             timer = {"enabled": r.random() < 0.85, "mti": r.choice((1, 2, 3, 4, 5, 7, 9)), "sti": r.choice((0, 2, 3, 5, 8, 9))}
             scen = scenario(main, body, imr0, timer, kb_irq=r.random() < 0.85,
                             reti=r.choice((b"\x01", b"\x01", b"\x01", b"\x32\x01", b"\x25\x01")))
+            if r.random() < 0.3:
+                scen["fast_mode"] = True       # Python only: PCE500Emulator.fast_mode (Rust has one path)
             nsteps = r.randrange(50, 160 if tier == "quick" else 400)
             placed = {}
             for _e in range(r.randrange(0, 10)):
